@@ -729,6 +729,18 @@ func c18Paths(c *Ctx, dr *Driver, g *Gen) bool {
 					Note: "Get/Has do not agree with Set on path " + strconv.Quote(p)})
 				return false
 			}
+			// a field that was Set to a non-map value is listed by Fields(true) (Props/C18.fields_after_set)
+			if _, isMap := v.(map[string]interface{}); !isMap {
+				listed := false
+				for _, f := range doc.Fields(true) {
+					listed = listed || f == p
+				}
+				if !listed {
+					c.Violation(&Replay{Stream: "paths", Case: steps, Expected: []string{"Fields(true) lists " + strconv.Quote(p)}, Actual: []string{strings.Join(doc.Fields(true), ",")},
+						Note: "a field that was just Set to a non-map value is not listed by Fields(true)"})
+					return false
+				}
+			}
 			for j, q := range pathPool {
 				if unrelatedPaths(p, q) && before[j] != after[j] {
 					c.Violation(&Replay{Stream: "paths", Case: steps, Expected: []string{before[j]}, Actual: []string{after[j]},
@@ -747,6 +759,21 @@ func c18Paths(c *Ctx, dr *Driver, g *Gen) bool {
 				continue
 			}
 			afterDoc := encDoc(doc.AsMap())
+			for _, sub := range []bool{false, true} {
+				fs := doc.Fields(sub)
+				hs := make([]string, len(fs))
+				for j, f := range fs {
+					hs[j] = hx(f)
+				}
+				fl := J{"k": "fields", "doc": afterDoc, "sub": sub}
+				if pm := dr.Ask(fl); pm != strings.Join(hs, ",") {
+					c.Unexplained(&Replay{Stream: "paths", Case: []interface{}{fl}, Expected: []string{pm}, Actual: []string{strings.Join(hs, ",")}}, "correspondence K-C18/fields")
+					modelOff = true
+				}
+			}
+			if modelOff {
+				continue
+			}
 			for j, q := range pathPool {
 				if q != p && g.pick(4) != 0 {
 					continue // the model is asked about the assigned path and a random quarter of the pool
